@@ -436,11 +436,15 @@ impl<T: StarlarkAnyRegistered> AtomicFrozenAnyValueOption<T> {
     }
 
     pub(crate) fn load_relaxed(&self) -> Option<FrozenAnyValue<T>> {
+        #[cfg(feature = "verif_hooks")]
+        crate::verif_hooks::sched_point(crate::verif_hooks::Site::AtomicValueLoad);
         let raw = self.0.load(atomic::Ordering::Relaxed);
         unsafe { Self::decode(raw) }
     }
 
     pub(crate) fn store_relaxed(&self, value: FrozenAnyValue<T>) {
+        #[cfg(feature = "verif_hooks")]
+        crate::verif_hooks::sched_point(crate::verif_hooks::Site::AtomicValueStore);
         self.0
             .store(Self::encode(Some(value)), atomic::Ordering::Relaxed);
     }
